@@ -11,8 +11,8 @@ removals and calls and follows the content of the directories with a model;
 'environment' gives the temporary directory and the PATH entry unusual names;
 'channels' makes the solver talk on the channels that do not carry the answer (standard
 error; the standard output of a minisat-style program) and varies the byte layout of the
-answer itself (line ends, separators, one write or many); its 'consume' cases hand formulas
-of 70 KiB .. 3 MiB of DIMACS to programs that take their input in different ways (all of it,
+answer itself (line ends, separators, one write or many); 'consumption' hands formulas
+of 65 KiB .. 3 MiB of DIMACS to programs that take their input in different ways (all of it,
 slowly, only a prefix, nothing; closing it early; writing a large answer first).
 """
 import io
@@ -39,6 +39,7 @@ ASSUMPTIONS = [
     "some_solver_installed(names) is expected to be true exactly when one of the names is reachable (no argument: the supported names)",
     "only standard output (DIMACS conventions) or the result file (minisat convention) carries the answer: whatever the program writes on standard error (any bytes), and whatever a minisat-style program prints on its standard output (any bytes), is not part of it and does not change verdict or model",
     "standard output of a DIMACS-convention solver is ASCII text whose lines are comment lines ('c...'), blank lines, one 's' line and 'v' lines; line ends LF or CRLF; tokens of a 'v' line separated by blanks and tabs; the last line may lack its line end; the text may arrive in several writes",
+    "a solver may stop reading its input as soon as it knows the answer (or close it and go on working), may read it in pieces of any size at its own pace, and may put any amount of text on its standard output before it has read its input: in all these cases the verdict/model it prints is the answer; a scripted solver of 'consumption' waits only for input, end of input or room in its output pipe, each wait guarded by 60 s (never reached on a working bridge)",
     "names of the temporary directory and of PATH entries: any characters but tab, newline, NUL, '/' (and ':' in PATH); the path is absolute; tokens of a command line are separated by one or more blanks, blanks around it are allowed",
 ]
 
@@ -1313,8 +1314,6 @@ def channel_labels(case, R):
 
 
 def run_channels(case):
-    if case.get('consume') is not None:
-        return run_consume(case)
     if not (case.get('shape') or {}).get('chan'):
         raise ValueError("a case of 'channels' needs shape['chan']")
     R = execute(case)
@@ -1324,6 +1323,341 @@ def run_channels(case):
     active = any(l in L for l in ('stderr-talks', 'crlf', 'pieces=2', 'pieces>=3')) or \
         any(l.startswith('fileout-stdout-noise:') for l in L)
     return Outcome(labels=L, nontrivial=bool(R['expect'] == 'verdict' and active), rejected=R['expect'] != 'verdict')
+
+
+# ---------------------------------------------------------------------------
+# consumption: how the program takes a formula whose text does not fit into a pipe buffer
+
+BIG_KINDS = ('planted', 'empty-first', 'units-first', 'empty-last', 'units-last')
+PIPE = 65536                     # what a Linux pipe absorbs while nobody reads
+
+
+def expand_big(p):
+    """(nvars, clauses, verdict, hidden assignment, lower bound on the bytes of its DIMACS text) of a formula
+    of about p['kib'] KiB whose answer is known by construction.  p = {'kind', 'n', 'kib', 'rseed', 'width'}:
+    a hidden assignment drawn from random.Random(rseed); clauses of 1..width distinct variables, each containing a
+    literal of it, until the text reaches the size; the unsatisfiable kinds add the empty clause, or the two unit
+    clauses of a variable, as the first or as the last clauses."""
+    n, kib, w, kind = int(p['n']), int(p['kib']), int(p.get('width', 3)), p['kind']
+    if not (4 <= n <= 60000 and 1 <= kib <= 4096 and 1 <= w <= 6) or kind not in BIG_KINDS:
+        raise ValueError("big formula out of range: {}".format(p))
+    rng = random.Random(p['rseed'])
+    hidden = [v if rng.getrandbits(1) else -v for v in range(1, n + 1)]
+    width = [len(str(v)) + 1 for v in range(n + 1)]          # bytes of a positive literal and its blank
+    target = kib * 1024
+    size = len('p cnf {} {}\n'.format(n, 0))
+    clauses = []
+    bits = rng.getrandbits
+    nbits = 24 * w + 8
+    while size < target:
+        x = bits(nbits)
+        k = 1 + (x & 7) % w
+        x >>= 8
+        v = x % n + 1
+        c = [hidden[v - 1]]
+        vs = [v]
+        size += width[v] + (c[0] < 0) + 2
+        for j in range(1, k):
+            x >>= 24
+            v = x % n + 1
+            if v in vs:
+                continue
+            vs.append(v)
+            if x & 0x800000:
+                c.append(-v)
+                size += width[v] + 1
+            else:
+                c.append(v)
+                size += width[v]
+        clauses.append(c)
+    if kind != 'planted':
+        x = rng.randint(1, n)
+        extra = [[]] if kind.startswith('empty') else [[x], [-x]]
+        clauses = extra + clauses if kind.endswith('first') else clauses + extra
+    return n, clauses, kind == 'planted', hidden, size
+
+
+def consume_ctx(case, R, plan, est, outlen):
+    return ("formula p cnf {} {} ({}, at least {} bytes of DIMACS) {} ...; cmd={!r} sameas={!r} installed={}; the program: {}; "
+            "it answers {} with {} bytes on standard output{}").format(
+        R['n'], len(R['clauses']), case['big']['kind'], est, R['clauses'][:3], R['cmd'], R['sameas'], R['installed'],
+        describe_consumer(plan), 'SATISFIABLE' if R['verdict'] else 'UNSATISFIABLE', outlen,
+        '' if R['verdict'] is False else ' (model of {} literals)'.format(R['n']))
+
+
+def describe_consumer(plan):
+    how = {'all': 'reads its input to the end', 'pline': 'reads up to the end of the problem line',
+           'clause1': 'reads up to the end of the first clause', 'bytes': 'reads {} bytes of its input'.format(plan['nbytes']),
+           'none': 'reads nothing'}[plan['read']]
+    how += ' in pieces of {} bytes'.format(plan['chunk'])
+    if plan['nap_every']:
+        how += ' pausing {} ms after every {} reads'.format(plan['nap_ms'], plan['nap_every'])
+    if plan['close_early']:
+        how += ', closes the input, works for {} ms'.format(plan['linger_ms'])
+    how += {'end': ', then writes its answer', 'start': '; it writes its whole standard output before reading',
+            'mid': '; it writes its whole standard output after the first {} bytes of input'.format(plan['nbytes'])}[plan['out_at']]
+    return how + ' and exits'
+
+
+def check_consumed(o, R, plan, ctx):
+    """What the program received: the whole formula (and the end of the input) when it reads to the end, the
+    beginning of the formula's text when it stops early; it never had to wait beyond the watchdog."""
+    from collections import Counter
+    n, clauses = R['n'], R['clauses']
+    for c in o.calls:
+        if c.get('stuck'):
+            raise Violation("{}(): the bridge and solver '{}' blocked each other (the program gave up after {} s: {}); {}".format(
+                o.what, c['name'], fs.WATCHDOG_S, ' / '.join(c['stuck']), ctx))
+        if c['input'] is None:
+            raise Violation("{}(): solver '{}' was run as {} and could not read a formula; {}".format(o.what, c['name'], c['args'], ctx))
+        if c['input'] == R.get('_input_verified'):
+            continue                              # byte for byte what the previous call delivered (and that was right)
+        try:
+            text = c['input'].decode('ascii')
+            if plan['read'] == 'all':
+                gn, gcl = fs.fast_dimacs(text)
+                gm = len(gcl)
+            else:
+                gn, gm, gcl = fs.fast_dimacs(text, partial=True)
+        except (UnicodeDecodeError, fs.DimacsError) as e:
+            raise Violation("{}(): solver '{}' received text that is not {}DIMACS CNF ({}): {!r}...; {}".format(
+                o.what, c['name'], '' if plan['read'] == 'all' else 'the beginning of a ', e, c['input'][:200], ctx))
+        if plan['read'] == 'all':
+            if gn != n or (gcl != clauses and clause_key(gcl) != clause_key(clauses)):
+                raise Violation("{}(): solver '{}' read its input to the end and received p cnf {} {} {}... which is not the formula held; {}".format(
+                    o.what, c['name'], gn, len(gcl), gcl[:4], ctx))
+            if c.get('eof') != ['1']:
+                raise RuntimeError("harness: a program that reads to the end recorded no end of input: {}".format(c.get('eof')))
+        elif gn is not None:
+            have = Counter(tuple(sorted(x)) for x in clauses)
+            have.subtract(Counter(tuple(sorted(x)) for x in gcl))
+            if gn != n or gm != len(clauses) or any(v < 0 for v in have.values()):
+                raise Violation("{}(): solver '{}' took the first {} bytes of its input: p cnf {} {} with clauses {}... which is not the beginning of the formula held; {}".format(
+                    o.what, c['name'], len(c['input']), gn, gm, gcl[:4], ctx))
+        if plan['read'] != 'all' or c.get('eof') == ['1']:
+            R['_input_verified'] = c['input']
+
+
+def run_consume(case):
+    from cnfgen.utils.solver import supported_satsolvers
+    n, clauses, verdict, hidden, est = expand_big(case['big'])
+    F = build_formula({'nvars': n, 'clauses': clauses})
+    if F.number_of_variables() != n or len(F) != len(clauses):
+        raise RuntimeError("harness: big formula not built as described")
+    if verdict:
+        if not satisfies(clauses, hidden):
+            raise RuntimeError("harness: the planted assignment does not satisfy the planted formula")
+    else:
+        units = set(c[0] for c in clauses if len(c) == 1)
+        if [] not in clauses and not any(-u in units for u in units):
+            raise RuntimeError("harness: unsatisfiable formula without empty clause or complementary units")
+    model = hidden if verdict else None
+    shape = case['shape']
+    if shape['status'] != 'answer':
+        raise ValueError("a 'consume' case is about programs that answer")
+    plan = fs.consume_plan(case['consume'])
+    mode = case['mode']
+    supported = list(supported_satsolvers())
+    installed = dict(case.get('installed') or {})
+    flags = list(case.get('flags') or [])
+    target, cmd, sameas = resolve_call(case, flags, ' ')
+    if cmd is None:
+        flags = []
+    behaviours = {name: fs.behaviour_of(sameas if (mode == 'sameas' and name == target) else name) for name in installed}
+    expect, expect_alt, chosen = expected_outcome(mode, target, sameas, installed, supported, True)
+    if expect != 'verdict' or any(s != 'ok' for s in installed.values()):
+        raise ValueError("a 'consume' case needs a reachable solver")
+    status = (10 if verdict else 20) if shape.get('exit', 'std') == 'std' else 0
+    outlen = {}
+    with fs.Sandbox(capture_stderr=True) as sb:
+        for name in sorted(installed):
+            out, res = fs.consumer_output(behaviours[name], verdict, model, shape, n, case.get('chatter_kib', 0))
+            outlen[name] = len(out)
+            sb.install_consumer(name, behaviours[name], dict(plan, res_first=bool(case.get('res_first'))), out, res, status)
+        o1 = call_bridge(sb, 'solve', lambda: F.solve(cmd=cmd, sameas=sameas, verbose=case.get('verbose', 0)))
+        if any(c.get('stuck') for c in o1.calls):
+            o2 = None                                # one mutual wait is enough
+        else:
+            o2 = call_bridge(sb, 'is_satisfiable', lambda: F.is_satisfiable(cmd=cmd, sameas=sameas))
+        root = sb.root
+    if os.path.exists(root):
+        raise RuntimeError("harness: scratch directory {} not removed".format(root))
+    R = {'n': n, 'clauses': clauses, 'verdict': verdict, 'model': model, 'mode': mode, 'cmd': cmd, 'sameas': sameas,
+         'expect': expect, 'expect_alt': expect_alt, 'chosen': chosen, 'flags': flags, 'behaviours': behaviours,
+         'supported': supported, 'installed': installed, 'target': target, 'shape': shape}
+    ctx = consume_ctx(case, R, plan, est, outlen[chosen])
+    unread = False
+    for o in (o1, o2):
+        if o is None:
+            raise RuntimeError("harness: a blocked call went unreported")
+        check_consumed(o, R, plan, ctx)
+        check_outcome(o, R, ctx)
+        check_leftovers(o, ctx)
+        unread = unread or any(len(c['input']) < est for c in o.calls)
+    if [list(c) for c in F] != clauses or F.number_of_variables() != n:
+        raise Violation("the formula was modified by solve()/is_satisfiable(); {}".format(ctx))
+    beh = behaviours[chosen]
+    conv = fs.CONVENTION_LABEL[beh]
+    L = ['consume', mode, 'solver:' + chosen if mode != 'sameas' else 'sameas:' + sameas, conv, 'sat' if verdict else 'unsat',
+         'big-' + case['big']['kind'], 'read-' + plan['read'], 'out-at-' + plan['out_at'],
+         'consume/{}/read-{}'.format(conv, plan['read']), 'consume/{}/out-at-{}'.format(conv, plan['out_at'])]
+    for lim, name in ((70 << 10, '70KiB'), (256 << 10, '256KiB'), (1 << 20, '1MiB'), (3 << 20, '3MiB')):
+        if est >= lim:
+            L.append('dimacs>=' + name)
+    if est > PIPE and plan['read'] != 'all':
+        L.append('stops-early-beyond-pipe-buffer')
+        L.append(conv + '/stops-early-beyond-pipe-buffer')
+    if unread:
+        L.append('input-left-unread')
+    if plan['read'] == 'all' and (plan['nap_every'] or plan['chunk'] <= 4096):
+        L.append('slow-reader')
+        L.append(conv + '/slow-reader')
+    if plan['close_early']:
+        L.append('closes-input-early')
+        L.append(conv + '/closes-input-early')
+    if outlen[chosen] > PIPE:
+        L.append('stdout-beyond-pipe-buffer')
+        if plan['out_at'] != 'end':
+            L.append('large-output-before-input-is-read')
+            L.append(conv + '/large-output-before-input-is-read')
+    if verdict and beh != 'minisat' and n >= 1000:
+        L.append('many-v-lines')
+    if case.get('chatter_kib'):
+        L.append('large-chatter')
+    if shape.get('exit', 'std') != 'std':
+        L.append('exit-0')
+    if flags:
+        L.append('flags')
+    return Outcome(labels=sorted(set(L)), nontrivial=est > PIPE, rejected=False)
+
+
+CONSUME_STYLES = [
+    # (label of the style, consumer plan, wants a model / chatter beyond a pipe buffer)
+    ('all', {'read': 'all'}, False),
+    ('all-slow', {'read': 'all', 'chunk': 1024, 'nap_every': 16, 'nap_ms': 1}, False),
+    ('all-tiny-chunks', {'read': 'all', 'chunk': 512}, False),
+    ('pline-exit', {'read': 'pline', 'chunk': 256}, False),
+    ('clause1-exit', {'read': 'clause1', 'chunk': 128}, False),
+    ('4k-exit', {'read': 'bytes', 'nbytes': 4096}, False),
+    ('none-exit', {'read': 'none'}, False),
+    ('4k-close-linger', {'read': 'bytes', 'nbytes': 4096, 'close_early': True, 'linger_ms': 5}, False),
+    ('pline-close-linger', {'read': 'pline', 'chunk': 4096, 'close_early': True, 'linger_ms': 3}, True),
+    ('none-close-linger', {'read': 'none', 'close_early': True, 'linger_ms': 2}, False),
+    ('answer-first', {'read': 'all', 'out_at': 'start'}, True),
+    ('answer-mid-slow', {'read': 'all', 'out_at': 'mid', 'nbytes': 8192, 'chunk': 2048, 'nap_every': 32, 'nap_ms': 1}, True),
+    ('answer-first-read-nothing', {'read': 'none', 'out_at': 'start'}, True),
+]
+CONSUME_SHAPES = [
+    {'status': 'answer', 'fill': [0], 'cuts': [], 'zero': 'same', 's_pos': 'before', 'order': 0, 'exit': 'std',
+     'chan': {'vsplit': 'rows', 'per_line': 12}},
+    {'status': 'answer', 'fill': [1, 2], 'cuts': [], 'zero': 'own', 's_pos': 'after', 'order': 1, 'exit': 'zero',
+     'chan': {'vsplit': 'each'}},
+    {'status': 'answer', 'fill': [6, 0], 'cuts': [], 'zero': 'none', 's_pos': 'middle', 'order': 5, 'exit': 'std',
+     'chan': {'vsplit': 'rows', 'per_line': 40, 'vsep': 1}},
+]
+
+
+def _consume_case(name, i, style, kib, kind=None, nvars=None):
+    label, plan, big_out = CONSUME_STYLES[style]
+    how = i % 4
+    if how == 3:
+        exe = EXES[i % len(EXES)]
+        base = {'mode': 'sameas', 'solver': name, 'exe': exe, 'installed': {exe: 'ok'}}
+    elif how == 2:
+        base = {'mode': 'auto', 'installed': {name: 'ok'}}
+    else:
+        base = {'mode': 'named', 'solver': name, 'installed': {name: 'ok'}}
+    c = dict(base)
+    if kind is None:
+        # a program that stops early knows the answer from what it saw; one that reads everything may find it anywhere
+        early = plan['read'] != 'all'
+        kind = (('empty-first', 'units-first', 'planted') if early else ('planted', 'empty-last', 'units-last', 'planted', 'empty-first'))[i % (3 if early else 5)]
+    if nvars is None:
+        nvars = (12000, 16000)[i % 2] if big_out else (900, 5000, 300)[i % 3]
+    c['big'] = {'kind': kind, 'n': nvars, 'kib': kib, 'rseed': i, 'width': (3, 2, 4)[i % 3]}
+    c['shape'] = dict(CONSUME_SHAPES[i % len(CONSUME_SHAPES)])
+    c['consume'] = dict(plan)
+    c['chatter_kib'] = (90 if kind != 'planted' or fs.behaviour_of(name) == 'minisat' else 0) if big_out else 0
+    c['res_first'] = i % 2 == 1
+    c['flags'] = [] if how == 2 else [[], ['-q'], ['--plain', '-v']][i % 3]
+    c['verbose'] = 0
+    return c
+
+
+_FILE_STYLES = [0, 3, 4, 7, 10, 11, 6]     # a program that gets a file: to the end, problem line / first clause only, 4 KiB then closes,
+                                         # answer first / after 8 KiB, nothing
+
+
+def enum_consume(tier):
+    """quick: every style with the first stdin/stdout name and with glucose, a rotating third of the styles with
+    each further stdin/stdout name, seven styles with the names that get a file; sizes 66..130 KiB; then 1 MiB (five
+    cases) and 3 MiB (one case).  thorough: every name x every style x 66 KiB .. 3 MiB."""
+    names = _tree_names()
+    S = len(CONSUME_STYLES)
+    i = 0
+    sizes = [70, 100, 66, 130]
+    reps = {}
+    for name in names:
+        reps.setdefault(fs.behaviour_of(name), name)
+    if tier == 'quick':
+        k = 0
+        for a, name in enumerate(names):
+            beh = fs.behaviour_of(name)
+            if name in (reps.get('stdio'), reps.get('poly')):
+                styles = list(range(S))
+            elif beh in ('stdio', 'poly'):
+                k += 1
+                styles = [(5 * k + d) % S for d in range(5)]
+            else:
+                styles = _FILE_STYLES
+            for b in styles:
+                i += 1
+                yield _consume_case(name, i, b, sizes[(a + b) % len(sizes)])
+        for beh, b in (('stdio', 0), ('stdio', 3), ('stdio', 7), ('stdio', 10), ('minisat', 10)):
+            if beh in reps:
+                i += 1
+                yield _consume_case(reps[beh], i, b, 1024)
+        if 'stdio' in reps:
+            i += 1
+            yield _consume_case(reps['stdio'], i, 5, 3072)
+        return
+    for a, name in enumerate(names):
+        for b in range(S):
+            for kib in (66, 70, 130, 520):
+                i += 1
+                yield _consume_case(name, i, b, kib)
+    for beh in ('stdio', 'filereq', 'minisat', 'poly'):
+        if beh in reps:
+            for kib in (1024, 3072):
+                for b in range(S):
+                    i += 1
+                    yield _consume_case(reps[beh], i, b, kib)
+
+
+_CONSUME_STYLE = st.sampled_from(range(len(CONSUME_STYLES)))
+_CONSUME_KIB = st.sampled_from([65, 66, 70, 80, 96, 128, 200])
+_CONSUME_NAME = st.sampled_from(NAMES)
+_CONSUME_I = st.sampled_from(range(100000))
+_CONSUME_CHUNK = st.sampled_from([64, 300, 1000, 4096, 5000, 65536, 200000])
+_CONSUME_NBYTES = st.sampled_from([0, 1, 100, 1000, 4096, 8192, 60000, 66000])
+_BIG_KIND = st.sampled_from(BIG_KINDS)
+
+
+@st.composite
+def strat_consume(draw):
+    """a style of CONSUME_STYLES with its numbers (piece size, byte count, pauses) and the formula drawn freely"""
+    i = draw(_CONSUME_I)
+    c = _consume_case(draw(_CONSUME_NAME), i, draw(_CONSUME_STYLE), draw(_CONSUME_KIB))
+    plan = c['consume']
+    plan['chunk'] = draw(_CONSUME_CHUNK)
+    if plan.get('read') == 'bytes' or plan.get('out_at') == 'mid':
+        plan['nbytes'] = draw(_CONSUME_NBYTES)
+    if plan.get('read') == 'all' and plan['chunk'] <= 5000 and draw(_SMALL) == 1:
+        plan['nap_every'] = max(16, 16384 // plan['chunk'])
+        plan['nap_ms'] = 1
+    if draw(_SMALL) == 1:
+        c['big']['kind'] = draw(_BIG_KIND)
+    return c
 
 
 _ERR_IDX = st.sampled_from(range(len(fs.ERR_POOL)))
@@ -1555,4 +1889,17 @@ SUBCHECKS = [
              + ['{}/{}'.format(c, k) for c in _CONV for k in ('crlf', 'several-writes', 'stderr-talks')]
              + ['fileout-stdout-noise:' + k for k in fs.ERR_KINDS]
              + _SOLVER_LABELS + _CONV),
+    SubCheck('consumption', run_consume, strategy=strat_consume, enumerate_cases=enum_consume,
+             quick=48, thorough=4000,
+             rule="how the program TAKES its input, beyond what a pipe absorbs: " + "formulas of 65 KiB .. 3 MiB of DIMACS text with an answer known by construction (planted assignment over 300..16000 variables; the empty clause or two complementary unit clauses as the first or as the last clauses), every supported name (all three conventions, glucose) called by name / through sameas / as default, answered by a Python program that reads its input (standard input or the file argument) to the end in pieces of 64 bytes .. 200 kB with or without pauses of 1 ms, or only up to the end of the problem line / of the first clause / up to 0..66000 bytes / not at all and then answers and exits, or closes its input after such a prefix, keeps running for 2..5 ms and answers then, or writes its whole standard output (a model of 12000..16000 literals over 300..16000 'v' lines, or 90 KiB of comment/statistics lines: more than a pipe holds) before reading or after the first bytes of input; 13 styles enumerated with every name at 66..130 KiB (quick: all styles with two names, 5..7 styles with each other name), at 1 MiB and 3 MiB with one name per convention (quick: 5 cases of 1 MiB, one of 3 MiB); oracle: exactly one run, the bytes the program took are the whole formula and the end of the input (reads to the end) or parse as the beginning of the formula's DIMACS text (stops early), verdict and model are the ones the program printed, no exception (BrokenPipeError, RuntimeError) when the program answered, temporary directory empty, nobody blocks (every wait of the program is for input, end of input or room in its output pipe; a guard of 60 s that is never reached on a working bridge turns a mutual wait into a finding); non-trivial: text larger than a pipe buffer",
+             required_labels=['consume', 'stops-early-beyond-pipe-buffer', 'input-left-unread', 'slow-reader', 'closes-input-early',
+                              'stdout-beyond-pipe-buffer', 'large-output-before-input-is-read', 'large-chatter', 'many-v-lines',
+                              'dimacs>=70KiB', 'dimacs>=256KiB', 'dimacs>=1MiB', 'dimacs>=3MiB', 'sat', 'unsat', 'named', 'sameas', 'auto',
+                              'flags', 'exit-0']
+             + ['read-' + m for m in fs.READ_MODES] + ['out-at-' + m for m in fs.OUT_AT] + ['big-' + k for k in BIG_KINDS]
+             + ['consume/{}/read-{}'.format(c, m) for c in _CONV for m in fs.READ_MODES]
+             + ['consume/{}/out-at-{}'.format(c, m) for c in _CONV for m in fs.OUT_AT]
+             + ['{}/{}'.format(c, k) for c in _CONV for k in ('stops-early-beyond-pipe-buffer', 'slow-reader', 'closes-input-early',
+                                                             'large-output-before-input-is-read')]
+             + _SOLVER_LABELS + ['sameas:' + s for s in NAMES] + _CONV),
 ]
